@@ -79,7 +79,7 @@ func checkBlock(c blockCase, r *h.Rec) error {
 
 func TestC02_BlockUniform(t *testing.T) {
 	observeDispatch()
-	h.Prop(t, h.P{Name: "block-uniform", Quick: 40000, Thorough: 2000000, Journal: true}, func(rt *rapid.T) blockCase {
+	h.Prop(t, h.P{Name: "block-uniform", Quick: 25000, Thorough: 2000000, Journal: true}, func(rt *rapid.T) blockCase {
 		if rapid.IntRange(0, 9).Draw(rt, "kind") < 7 {
 			// rapid's integer generators favour small values; expand a drawn
 			// seed instead so that key and block are uniform.
